@@ -112,6 +112,15 @@ async def run_schedule(config: dict, prefix: list[int], rng=None) -> Outcome:
         enabled: list[tuple[str, int]] = [("write", i) for i in range(len(transport.pending))]
         enabled += [("start", i) for i, flag in enumerate(started) if not flag]
         if not enabled:
+            if all(t.done() for t in tasks):
+                break
+            # tasks that merely yield (sleep(0) chains, lock hand-offs) are not deadlocked: spin generously
+            for _ in range(300):
+                await asyncio.sleep(0)
+                if transport.pending or all(t.done() for t in tasks):
+                    break
+            if transport.pending:
+                continue
             break
         if step < len(prefix):
             choice = prefix[step] % len(enabled)
